@@ -56,7 +56,7 @@ PKG_PROJECT = {
 }
 ROLES = ["pkg/__init__.py", "pkg/core.py", "pkg/sub/__init__.py", "pkg/sub/leaf.py", "app_main.py", "pkg/util.py"]
 
-REQ = ("From Coq Require Import List Arith.\nImport ListNotations.\nFrom PV Require Import Service.Isolation Deps.DepthCost.")
+REQ = ("From Coq Require Import List Arith NArith.\nImport ListNotations.\nFrom PV Require Import Service.Isolation Deps.DepthCost.")
 
 
 def bad_contents(rng, good_src):
@@ -511,47 +511,115 @@ def main(tier):
         else:
             ck.violation("clone detection time is not proportional to the input size: an elif chain of 10 clauses takes %.1fs, of 20 clauses %.1fs"
                          % (ct[10], ct[20]), {"kind": "breadth-clones", "seconds": stats["clone_elif_chain_seconds"]})
-    # ----- longest import chain: model vs implementation on small graphs; super-linear growth (finding F21)
+    # ----- longest import chain (calculateMaxDepth): (1) value tie with Deps/DepthCost.v on small graphs, import cycles included, modules
+    # listed in a shuffled order; (2) time proportional to modules + imports on DAGs of every density.  Finding F21 (the search
+    # enumerated simple paths: 2^n on a dense DAG) is repaired: a recurrence is a VIOLATION.
     if ck.go_ok:
         graphs = []
-        for _ in range(60 if thorough else 25):
+        for _ in range(60 if thorough else 25):          # random digraphs, most of them with import cycles
             n = rng.randint(2, 7)
-            edges = [(i, j) for i in range(n) for j in range(n) if i != j and rng.random() < 0.3]
-            graphs.append((n, edges))
-        reqs = [{"op": "maxdepth", "modules": ["m%02d" % i for i in range(n)], "edges": [["m%02d" % a, "m%02d" % b] for a, b in e]} for n, e in graphs]
+            graphs.append(("random", n, [(i, j) for i in range(n) for j in range(n) if i != j and rng.random() < 0.3]))
+        for _ in range(30 if thorough else 12):          # random DAGs, dense ones included (every module gets a height)
+            n = rng.randint(2, 9)
+            p = rng.choice((0.2, 0.5, 0.9))
+            graphs.append(("dag", n, [(i, j) for i in range(n) for j in range(i + 1, n) if rng.random() < p]))
+        for _ in range(30 if thorough else 12):          # an import cycle above / beside / below a dense DAG: both code paths in one search
+            n = rng.randint(5, 9)
+            k = rng.randint(2, 3)
+            e = set((i, (i + 1) % k) for i in range(k))
+            e |= set((i, j) for i in range(k, n) for j in range(i + 1, n) if rng.random() < 0.7)
+            e |= set((i, j) for i in range(k) for j in range(k, n) if rng.random() < 0.4)
+            if rng.random() < 0.5:
+                e |= set((i, j) for i in range(k, n) for j in range(k) if rng.random() < 0.15)
+            graphs.append(("cycle+dag", n, sorted(e)))
+        reqs = [{"op": "maxdepth", "modules": ["m%02d" % i for i in range(n)], "edges": [["m%02d" % a, "m%02d" % b] for a, b in e]} for _, n, e in graphs]
         impl = lib.driver(reqs)
         try:
             items = []
-            for n, e in graphs:
+            for _, n, e in graphs:
                 succ = "(fun i => nth i %s [])" % lib.clist([lib.clist(["%d" % b for (a, b) in e if a == i]) for i in range(n)])
-                items.append("max_depth %s (seq 0 %d)" % (succ, n))
+                order = list(range(n))
+                rng.shuffle(order)                      # graph.Nodes is a Go map: any order of the modules
+                nodes = lib.clist(["%d" % x for x in order])
+                items.append("(max_depth_new %s %s, max_depth %s %s, N.of_nat (max_depth_steps %s %s))" % (succ, nodes, succ, nodes, succ, nodes))
             out = lib.coq_eval("C06_depth", REQ, "Eval vm_compute in %s.\n" % lib.clist(items))
             model = lib.parse_coq_values(out)[0]
-            for (n, e), r, mv in zip(graphs, impl, model):
+            for (kind, n, e), r, (mv, enum_v, steps) in zip(graphs, impl, model):
                 stats["depth_graphs"] += 1
+                stats.setdefault("depth_graph_kinds", {}).setdefault(kind, 0)
+                stats["depth_graph_kinds"][kind] += 1
+                if kind == "dag" and steps > 2 * n + len(e):
+                    ck.broken_ties.append("DepthCost.v: %d steps on an acyclic graph with %d modules and %d imports (theorem: at most 2n+e)" % (steps, n, len(e)))
+                if mv != enum_v:
+                    ck.broken_ties.append("DepthCost.v: max_depth_new %s differs from max_depth %s on %d modules, edges %s" % (mv, enum_v, n, e))
                 if r.get("depth") != mv:
-                    # the VALUE of the longest chain is property C12's business (and its run-to-run stability C05's); here the model only
-                    # explains the cost, so a different value is recorded, not reported as a broken tie of C06
-                    stats["depth_value_differs_from_model"] = stats.get("depth_value_differs_from_model", 0) + 1
-                    if stats["depth_value_differs_from_model"] <= 2:
-                        ck.notes.append("calculateMaxDepth on %d modules, edges %s: impl %s, DepthCost.v %s (value: see C12)" % (n, e, r.get("depth"), mv))
+                    ck.broken_ties.append("calculateMaxDepth on %d modules, edges %s (%s): implementation %s, model (DepthCost.v max_depth_new) %s"
+                                          % (n, e, kind, r.get("depth"), mv))
         except Exception as ex_:
             ck.broken_ties.append("depth model evaluation failed: " + str(ex_)[-600:])
-        # complete DAGs: time must not explode — it does (2^n): recorded finding F21
-        def dag(n):
-            ms = ["m%02d" % i for i in range(n)]
-            return {"op": "maxdepth", "modules": ms, "edges": [[ms[i], ms[j]] for i in range(n) for j in range(i + 1, n)]}
-        t = lib.driver([dag(12), dag(16), dag(20)])
-        micros = [max(1, x.get("micros", 1)) for x in t]
-        stats["complete_dag_micros"] = {"12": micros[0], "16": micros[1], "20": micros[2]}
-        # input size grows by (20*19/2+20)/(16*15/2+16) = 1.5; proportional time would stay below ~4x
-        if micros[2] > 8 * micros[1] and micros[2] > 20000:
-            kf = ck.match_known({"class": "dense-import-dag-depth"})
-            if kf is not None:
-                ck.known_finding(kf)
-            else:
-                ck.violation("calculateMaxDepth time grows exponentially on a dense import DAG: 16 modules %d us, 20 modules %d us" % (micros[1], micros[2]),
-                             {"kind": "depth-time", "micros": stats["complete_dag_micros"]})
+
+        # time on DAGs: generous linear bound in modules + imports (observed after the repair: ~0.05 us per import)
+        def mk(ms, edges):
+            return {"op": "maxdepth", "modules": ms, "edges": [[ms[a], ms[b]] for a, b in edges]}
+
+        def complete(n):
+            return "complete DAG of %d modules" % n, n, [(i, j) for i in range(n) for j in range(i + 1, n)]
+
+        def layered(layers, width):                      # every module imports every module of the next layer: width^layers chains
+            n = layers * width
+            return ("layered DAG, %d layers of %d modules" % (layers, width), n,
+                    [(l * width + a, (l + 1) * width + b) for l in range(layers - 1) for a in range(width) for b in range(width)])
+
+        def random_dag(n, p):
+            return "random DAG of %d modules, density %.2f" % (n, p), n, [(i, j) for i in range(n) for j in range(i + 1, n) if rng.random() < p]
+
+        def diamonds(k):                                 # k diamonds in a row: 2^k chains, 3k+1 modules
+            e = []
+            for d in range(k):
+                a = 3 * d
+                e += [(a, a + 1), (a, a + 2), (a + 1, a + 3), (a + 2, a + 3)]
+            return "%d diamonds in a row" % k, 3 * k + 1, e
+        # the sizes grow stage by stage and a stage is only run when the one before kept the bound: code that enumerates paths would
+        # not come back from the later stages
+        stages = [[complete(12), complete(16), complete(20), layered(6, 3), diamonds(12)],
+                  [complete(40), layered(10, 4), diamonds(40), random_dag(60, 0.5)],
+                  [complete(80), complete(120), complete(200), layered(40, 5), layered(10, 20), diamonds(200), random_dag(300, 0.1)]]
+        if thorough:
+            stages.append([complete(400), layered(100, 8), random_dag(1000, 0.05)])
+        stats["depth_time_micros"] = {}
+        stop = False
+        for stage in stages:
+            reqs = []
+            for label, n, e in stage:
+                reqs += [mk(["m%04d" % i for i in range(n)], e)] * 3          # the best of three runs counts
+            try:
+                t = lib.driver(reqs, timeout=120)
+            except subprocess.TimeoutExpired:
+                ck.violation("calculateMaxDepth did not finish within 120 s on DAGs of at most %d modules (%s)"
+                             % (max(n for _, n, _ in stage), "; ".join(l for l, _, _ in stage)),
+                             {"kind": "depth-time", "graphs": [l for l, _, _ in stage], "micros_before": stats["depth_time_micros"]})
+                break
+            for k, (label, n, e) in enumerate(stage):
+                micros = min(max(1, x.get("micros", 1)) for x in t[3 * k:3 * k + 3])
+                stats["depth_time_micros"][label] = micros
+                stats["depth_graphs"] += 1
+                longest = None
+                if label.startswith("complete"):
+                    longest = n - 1
+                elif label.startswith("layered"):
+                    longest = int(label.split()[2]) - 1
+                elif label.endswith("diamonds in a row"):
+                    longest = 2 * ((n - 1) // 3)
+                if longest is not None and t[3 * k].get("depth") != longest:
+                    ck.violation("calculateMaxDepth on a %s: %s, the longest import chain has %d imports" % (label, t[3 * k].get("depth"), longest),
+                                 {"kind": "depth-value", "graph": label, "modules": n, "edges": e[:400]})
+                bound = 20000 + 20 * (n + len(e))
+                if micros > bound and not stop:
+                    stop = True
+                    ck.violation("calculateMaxDepth time is not proportional to the size of the import graph: %s (%d imports) takes %d us (bound %d us = 20 ms + 20 us per module and import)"
+                                 % (label, len(e), micros, bound), {"kind": "depth-time", "graph": label, "modules": n, "imports": len(e), "micros": stats["depth_time_micros"]})
+            if stop:
+                break
     ck.samples = [{"label": l, "content_head": c[:60].decode("latin-1")} for l, c in bads[:6]]
     ck.cov.update({
         "evaluations": stats["mixed_runs"] + stats["alone_runs"] + stats["role_runs"] + stats["surface_runs"] + stats["wide_runs"] + stats["format_runs"] + stats["nesting_runs"] + stats["depth_graphs"],
@@ -561,7 +629,9 @@ def main(tier):
                 "baseline; malformed content in every role of a package project (package __init__ with re-exports, imported module, sub-package "
                 "__init__, leaf, importer) compared with the project without that file; valid sources rewritten with a continuation after every keyword/operator kind and "
                 "newlines/comments inside brackets (same AST under CPython) must not crash and must give the per-function results of the plain file; 4 output formats; nesting depth 40..320 of if/for/try; breadth: 30..120 sequential compound statements of eight shapes (loop then if/else "
-                "returns, if/else in a loop, try/except, elif chain, match cases, loops with else, with blocks); calculateMaxDepth vs its Coq model on random graphs. "
+                "returns, if/else in a loop, try/except, elif chain, match cases, loops with else, with blocks); calculateMaxDepth vs its Coq model (value) on random digraphs, random DAGs and import cycles combined with dense DAGs, "
+                "modules in shuffled order; calculateMaxDepth time on complete DAGs of 12..200 modules, layered DAGs, rows of diamonds and random DAGs against "
+                "20 ms + 20 us per module and import. "
                 "This stream is evidence for the un-modelled part (tree-sitter, Go runtime, OS); it is a test, not a proof.",
         "input_distribution": stats, "disagreements_checked": len(ck.violations),
     })
